@@ -94,7 +94,7 @@ fn main() {
                     break;
                 }
             }
-            stats.bump("exhaustive", 1);
+            stats.bump("exhaustive_runs_completed", 1);
         }
         "wb" | "set" => {
             for ep in ep_range {
@@ -137,7 +137,7 @@ fn main() {
                     break;
                 }
             }
-            stats.bump("exhaustive", 1);
+            stats.bump("exhaustive_runs_completed", 1);
         }
         "topo" => {
             let max_obj: usize = arg(&args, "max-obj", 8);
@@ -187,7 +187,7 @@ fn main() {
                     }
                 }
             }
-            stats.bump("exhaustive", 1);
+            stats.bump("exhaustive_runs_completed", 1);
         }
         _ => {
             eprintln!("unknown mode {}", mode);
